@@ -584,6 +584,14 @@ def judge(sc, obs, census, plan_kind, benign, self_census=False):
                                  (rel, len(data), len(census.get("artefacts_ref", census["artefacts"]).get(rel, b"")))))
                 elif not data.startswith(b"; ModuleID = '%s'" % os.fsencode(m).decode("utf-8", "replace").encode()):
                     viol.append(("artefact_corrupt", "%s does not start with its ModuleID line" % rel))
+                else:
+                    # the module's IR is IR for the target that was asked for: pointer width and triple agree
+                    tm = re.search(rb'^target triple = "([^"]*)"', data, re.M)
+                    lm = re.search(rb'^target datalayout = "([^"]*)"', data, re.M)
+                    if tm and lm and (b"p:32:32" in lm.group(1)) != tm.group(1).startswith(b"wasm32"):
+                        viol.append(("artefact_for_another_target", "%s: data layout %s with target triple %s" % (rel, lm.group(1).decode(), tm.group(1).decode())))
+                    elif tm and bool(sc["wasm"]) != tm.group(1).startswith(b"wasm32"):
+                        viol.append(("artefact_for_another_target", "%s: --wasm is %s but the target triple is %s" % (rel, bool(sc["wasm"]), tm.group(1).decode())))
         if sc["sub"] != "emit":
             recs = [m for m in obs["marker"]]
             if len(recs) != 1 or recs[0]["id"] != sc["backend_id"]:
